@@ -11918,6 +11918,51 @@ func (p *PathAttribute) Len(options ...*MarshallingOption) int {
 	return 3 + int(p.Length)
 }
 
+// lenOfValue is the length of the attribute as Serialize emits it for a
+// value of valueLen octets: Serialize switches to the extended length form
+// on its own when the value does not fit into one length octet.
+func (p *PathAttribute) lenOfValue(valueLen int) int {
+	if p.Flags&BGP_ATTR_FLAG_EXTENDED_LENGTH != 0 || valueLen > 255 {
+		return 4 + valueLen
+	}
+	return 3 + valueLen
+}
+
+// pathAttributeWireLen returns the number of octets the attribute at the
+// head of data takes according to its own header (a length field that is cut
+// short counts as zero, as it does in PathAttribute.DecodeFromBytes). This is
+// what a decoder has to skip: Len() of the decoded value is the length of
+// what Serialize would emit, which need not be what was received (path
+// identifiers are a matter of the direction).
+func pathAttributeWireLen(data []byte) int {
+	if len(data) > 0 && BGPAttrFlag(data[0])&BGP_ATTR_FLAG_EXTENDED_LENGTH != 0 {
+		if len(data) < 4 {
+			return 4
+		}
+		return 4 + int(binary.BigEndian.Uint16(data[2:4]))
+	}
+	if len(data) < 3 {
+		return 3
+	}
+	return 3 + int(data[2])
+}
+
+// pathNLRIsLen is the number of octets the NLRIs of an MP_REACH_NLRI or
+// MP_UNREACH_NLRI attribute of the family take on the wire: with the 4-octet
+// path identifier in front of each when ADD-PATH is enabled in the send
+// direction for the family.
+func pathNLRIsLen(family Family, nlris []PathNLRI, options []*MarshallingOption) int {
+	idLen := 0
+	if IsAddPathEnabled(false, family, options) {
+		idLen = 4
+	}
+	l := 0
+	for _, n := range nlris {
+		l += idLen + n.NLRI.Len()
+	}
+	return l
+}
+
 func (p *PathAttribute) GetFlags() BGPAttrFlag {
 	return p.Flags
 }
@@ -13115,6 +13160,37 @@ func (p *PathAttributeMpReachNLRI) Serialize(options ...*MarshallingOption) ([]b
 	return p.PathAttribute.Serialize(buf, options...)
 }
 
+// Len returns the number of octets Serialize emits with the same options:
+// unlike PathAttribute.Length, which the constructor computes without
+// them, it counts the path identifiers of a family that is sent with
+// ADD-PATH (and only the next hop for the MRT form).
+func (p *PathAttributeMpReachNLRI) Len(options ...*MarshallingOption) int {
+	// the next hop as Serialize writes it
+	nexthops, nexthoplen := 0, 0
+	if p.Nexthop.IsValid() {
+		nexthops, nexthoplen = 1, BGP_ATTR_NHLEN_IPV4
+		if p.AFI == AFI_IP6 || p.Nexthop.Is6() {
+			nexthoplen = BGP_ATTR_NHLEN_IPV6_GLOBAL
+			if p.LinkLocalNexthop.IsValid() && p.LinkLocalNexthop.IsLinkLocalUnicast() {
+				nexthops, nexthoplen = 2, BGP_ATTR_NHLEN_IPV6_GLOBAL_AND_LL
+			}
+		}
+	}
+	switch p.SAFI {
+	case SAFI_MPLS_VPN:
+		nexthoplen += nexthops * BGP_ATTR_NHLEN_VPN_RD
+	case SAFI_FLOW_SPEC_VPN, SAFI_FLOW_SPEC_UNICAST:
+		nexthoplen = 0
+	}
+	// NexthopLength(1) + Nexthop(variable)
+	l := 1 + nexthoplen
+	if !IsMRTSerialization(options) {
+		// AFI(2) + SAFI(1) + Reserved(1) + NLRI(variable)
+		l += 4 + pathNLRIsLen(NewFamily(p.AFI, p.SAFI), p.Value, options)
+	}
+	return p.lenOfValue(l)
+}
+
 func (p *PathAttributeMpReachNLRI) MarshalJSON() ([]byte, error) {
 	nexthop := p.Nexthop.String()
 	if !p.Nexthop.IsValid() {
@@ -13277,6 +13353,15 @@ func (p *PathAttributeMpUnreachNLRI) Serialize(options ...*MarshallingOption) ([
 		buf = append(buf, pbuf...)
 	}
 	return p.PathAttribute.Serialize(buf, options...)
+}
+
+// Len returns the number of octets Serialize emits with the same options:
+// unlike PathAttribute.Length, which the constructor computes without
+// them, it counts the path identifiers of a family that is sent with
+// ADD-PATH.
+func (p *PathAttributeMpUnreachNLRI) Len(options ...*MarshallingOption) int {
+	// AFI(2) + SAFI(1) + NLRI(variable)
+	return p.lenOfValue(3 + pathNLRIsLen(NewFamily(p.AFI, p.SAFI), p.Value, options))
 }
 
 func (p *PathAttributeMpUnreachNLRI) MarshalJSON() ([]byte, error) {
@@ -16743,7 +16828,10 @@ func (msg *BGPUpdate) DecodeFromBytes(data []byte, options ...*MarshallingOption
 				strongestError = e
 			}
 		}
-		pLen := uint16(p.Len(options...))
+		// the octets the attribute takes in the message: its own header says
+		// so, not Len(), which is the length of what would be sent
+		wireLen := pathAttributeWireLen(data)
+		pLen := uint16(wireLen)
 		if pLen > pathlen {
 			e = NewMessageErrorWithErrorHandling(
 				eCode, BGP_ERROR_SUB_ATTRIBUTE_LENGTH_ERROR, data, ERROR_HANDLING_TREAT_AS_WITHDRAW, nil, "path attribute length exceeds path attributes boundary")
@@ -16758,7 +16846,7 @@ func (msg *BGPUpdate) DecodeFromBytes(data []byte, options ...*MarshallingOption
 			break
 		}
 		pathlen -= pLen
-		if len(data) < p.Len(options...) {
+		if len(data) < wireLen {
 			e = NewMessageErrorWithErrorHandling(
 				eCode, BGP_ERROR_SUB_ATTRIBUTE_LENGTH_ERROR, data, ERROR_HANDLING_TREAT_AS_WITHDRAW, nil, "attribute length is short")
 			if e.(*MessageError).Stronger(strongestError) {
@@ -16766,7 +16854,7 @@ func (msg *BGPUpdate) DecodeFromBytes(data []byte, options ...*MarshallingOption
 			}
 			return strongestError
 		}
-		data = data[p.Len(options...):]
+		data = data[wireLen:]
 		// Keep only attributes that decoded completely. A malformed one is
 		// either discarded or makes the whole UPDATE a withdraw (RFC 7606);
 		// in both cases its content must not be used, and a partially
